@@ -13,7 +13,8 @@ import os, json, concurrent.futures
 import vf
 
 PROP = "C10"
-THEOREMS = ["read_prefix", "frame_codec_roundtrip", "commit_codec_roundtrip", "recover_committed_log"]
+THEOREMS = ["read_prefix", "frame_codec_roundtrip", "commit_codec_roundtrip", "recover_committed_log", "recover_prefix",
+            "ack_durable_partial", "repair_rewrite_kill_refuted"]
 
 PRE = ("From Coq Require Import List NArith.\nFrom Echo Require Import Base.Bytes Model.Wal.\n"
        "Import ListNotations.\nOpen Scope N_scope.\n")
@@ -361,8 +362,7 @@ def rewrite_model(rw):
     pairs = [(s, tbl) for s in segs]
     terms = []
     for i, (c, m) in enumerate(rw):
-        ends = [0] + ([int(x.split(":")[0]) for x in m["rends"].split(",")] if m["rends"] != "-" else [])
-        lst = ";".join(str(e) for e in ends)
+        lst = ";".join(m["stops"].split(","))
         terms.append(f"map (fun k => summarize (recover_store (tbl_hash tbl{2*i+1}) (firstn (N.to_nat k) seg{2*i+1}))) [{lst}]")
         terms.append(f"bytes_eqb (repair (tbl_hash tbl{2*i}) seg{2*i}) seg{2*i+1}")
     vals = model_on_variants("c10rw-e", pairs, terms)
@@ -378,3 +378,32 @@ def rewrite_model(rw):
             differing += 1
             msgs.append(f"model repair differs from the real truncation rewrite output on `{c}`")
     return checked, differing, msgs
+
+
+# Not registered yet (the coordinator renames this to MANIFEST once `./check C10` exits 0, i.e. after the
+# findings `wal:idle-writer-epoch-skips-lsn` and `wal:repair-rewrite-not-crash-atomic` are fixed in /repo or
+# listed in known_findings.jsonl): the unchanged tree genuinely violates the property.
+MANIFEST_PENDING = {
+    "category": "proof",
+    "text": ("Coq theorems (no axioms, the hash function universally quantified) over an executable byte-level model of the "
+             "causal WAL (disk records, frame/commit codecs and integrity checks, recovery, truncation repair): reading / "
+             "recovering EVERY byte-length prefix of a valid log returns exactly the transactions whose commit marker lies "
+             "wholly inside the prefix, nothing of an incomplete transaction, tail Clean iff on a transaction boundary; every "
+             "transaction whose commit marker was synced before a crash point is recovered. The model is tied to /repo by "
+             "running it (vm_compute, blake3 supplied as a table of real digests) on the real segment bytes written by the real "
+             "FilesystemWalStore / TrustedRuntimeHost and comparing recovery results at every (thorough) / sampled (quick) "
+             "prefix. The harness additionally checks the property itself on the implementation: every byte prefix is "
+             "recovered from bytes, truncated copies with every coexisting writer-epoch ledger are reopened by the store and "
+             "by a fresh host (acknowledged submissions, outcomes, receipts, state root, frontier), recovered twice "
+             "(idempotence), continued and retried (de-duplication), with injected store faults, kills inside an operation, "
+             "restarts, and the repair interrupted at chosen bytes (RLIMIT_FSIZE)."),
+    "note": ("Trusted: Coq kernel + vm_compute; props/c10.py (generator, table-of-real-digests instantiation of the hash, "
+             "renderer); harness c10.rs; blake3 crate. Modelled rather than verified: causal_wal.rs disk-record layer, frame/"
+             "commit codecs, validate_* and recover_* functions, rewrite_segment_records as Gallina functions. Partial: "
+             "ack_durable is proved for the append path only; host rollback after store faults, the writer-epoch ledger, "
+             "recovery idempotence and continuation equivalence are exercised by the tie, not proved; OS fsync/rename/"
+             "directory durability is assumed (crash = byte prefix of the segment + old-or-new ledger); host payload "
+             "semantics, contract packages and provenance replay are not modelled. Idle scheduler passes advance an "
+             "in-memory global tick that is not durable: following the repo's own recovery tests, continuation runs are "
+             "compared modulo global-tick stamps."),
+}
